@@ -42,8 +42,12 @@ RULE = ("Operation lists of 4..40 steps on video cga/ega/vga starting from a cle
         "non-trivial when, in the surviving model state, output crossed the right margin or the "
         "bottom of the scroll window at least once; distinct = distinct operation list.")
 ASSUMPTIONS = [
-    "deferred and eager wrap after a completely filled line are both accepted (statement silent); "
-    "therefore the 'PRINT of exactly WIDTH characters advances two rows' behaviour is accepted too",
+    "overflow position: text that ends exactly in the last column leaves the wrap pending; the "
+    "newline that ends a PRINT statement then advances two rows (empty row; recorded GW-BASIC run "
+    "tests/basic/gwbasic/PRINT_overflow_CR) - asserted. With a trailing ';' the pending wrap "
+    "(PRINT_bottom_right_no_scroll) and an already executed wrap (what the code does on a row that "
+    "is flagged as continued) are both accepted: they differ only in when the bottom row scrolls. "
+    "A CR/LF inside a string right after a full line may advance one or two rows (no recording)",
     "an item longer than the line, or containing CR/LF, may or may not be moved to a fresh line first",
     "LOCATE to row 25 without VIEW PRINT is accepted as legal or illegal (manual silent); "
     "output while the cursor is on row 25 is only checked against the invariants",
@@ -64,7 +68,9 @@ logging.disable(logging.WARNING)
 
 H = 25
 MODE_WIDTH = {1: 40, 2: 80, 7: 40, 8: 80, 9: 80}
-WIDTH_SWITCH = {(1, 80): 2, (2, 40): 1, (7, 80): 8, (8, 40): 7, (9, 40): 7}
+# WIDTH 40 in SCREEN 9: the manual says SCREEN 7, the code goes to SCREEN 1 - the mode number is
+# then unknown to the model (None); only the width matters for this property
+WIDTH_SWITCH = {(1, 80): 2, (2, 40): 1, (7, 80): 8, (8, 40): 7, (9, 40): None, (None, 80): None}
 MAXC = 24
 MOVE_ONLY = (7, 11, 28, 29, 30, 31)
 
@@ -154,16 +160,24 @@ def dedupe(cands):
     return out
 
 
-def newline_variants(cd):
+def newline_variants(cd, statement_end=False):
+    """A newline. With the cursor in the overflow position (line filled to the last column, wrap
+    pending) the newline that ends a PRINT statement first completes the full row and then moves
+    one row further: the next output starts two rows down, leaving an empty row (GW-BASIC rule,
+    pinned by the recorded GW-BASIC run tests/basic/gwbasic/PRINT_overflow_CR). For a CR/LF
+    *inside* a string no recording exists: one or two rows are accepted."""
     if cd.p:
-        a = cd.copy()
-        a.advance_row()                 # deferred: the newline only resolves the pending wrap
         b = cd.copy()
         b.advance_row()
         b.mark('wrap')
-        b.advance_row()                 # eager: wrap happened, then the newline
-        b.mark('full-line-newline')
-        a.mark('full-line-newline')
+        b.advance_row()
+        if statement_end:
+            b.mark('exact-fit-statement-newline')
+            return [b]
+        a = cd.copy()
+        a.advance_row()                 # the embedded newline only resolves the pending wrap
+        b.mark('full-line-embedded-newline')
+        a.mark('full-line-embedded-newline')
         return [a, b]
     cd.advance_row()
     return [cd]
@@ -329,6 +343,8 @@ def pick_len(kind, v, cd):
         return max(0, min(255, left + v))
     if kind == 'line':          # v in -2..2 around a whole line
         return max(0, min(255, W + v))
+    if kind == 'fit':           # exact fit: ends in the last column of this or a later row
+        return max(0, min(255, left + W * (v % 3))) or W
     if kind == 'long':          # more than a line
         return max(0, min(255, W + 1 + (v % (W + 30))))
     return max(0, min(255, v))
@@ -445,7 +461,7 @@ def outcomes_mode(cd, newmode, curmode, neww, keyon):
     n = cd.copy()
     n.reset_mode(neww, keyon)
     outs.append((0, n))
-    if newmode == curmode and neww == cd.W:
+    if (newmode == curmode or newmode is None or curmode is None) and neww == cd.W:
         outs.append((0, cd.copy()))
     return outs
 
@@ -532,10 +548,12 @@ def _run(case, ops, sess, res):
         res.fail('harness.initial-screen', 'fresh session is not a blank 80x25 screen at (1,1)')
         return
     nontrivial = False
+    prev_fs = fs_now = False    # the previous operation was a PRINT containing CHR$(28)
     for idx, op in enumerate(ops):
         if drv.dead:
             return
         kind = op['op']
+        prev_fs, fs_now = fs_now, False
         ref = cands[0]
         before_grid = grid
         loose = False
@@ -553,6 +571,7 @@ def _run(case, ops, sess, res):
                 items.append(s)
             nl = bool(op.get('nl'))
             desc = 'PRINT %r%s' % (items, '' if nl else ';')
+            fs_now = any(28 in s for s in items)
             plain = is_plain(items)
             if not plain:
                 res.label('print-control-chars')
@@ -572,7 +591,7 @@ def _run(case, ops, sess, res):
                     if nl:
                         nxt = []
                         for x in live:
-                            nxt.extend(newline_variants(x))
+                            nxt.extend(newline_variants(x, statement_end=True))
                         live = dedupe(nxt)
                     live = finish_print(live)
                     outs.extend((0, x) for x in live)
@@ -726,6 +745,12 @@ def _run(case, ops, sess, res):
                 cands = dedupe(nxt)
                 for e in cands[0].ev:
                     res.label(e)
+                    if e in ('exact-fit-statement-newline', 'exact-fill'):
+                        res.label(e + ('-graphics' if mode != 0 else '-text'))
+                        if cands[0].act:
+                            res.label(e + '-in-window')
+                        if 'scroll' in cands[0].ev:
+                            res.label(e + '-scrolling')
                 if any(e in ('wrap', 'scroll') for e in cands[0].ev):
                     nontrivial = True
                 if len(cands) > 1:
@@ -735,7 +760,7 @@ def _run(case, ops, sess, res):
                     cands = cands[:MAXC]
             else:
                 _classify(res, kind, idx, desc, op, outs, err, grid, before_grid, R, C, cands,
-                          ref)
+                          ref, prev_fs)
                 cands = resync(grid, R, C, _view_after(outs, err, ref))
             if kind == 'locate':
                 res.label('locate-ok' if err == 0 else 'locate-err%d' % err)
@@ -792,7 +817,7 @@ def _run(case, ops, sess, res):
                 cands = resync(grid, R, C, ref)
     res.nt(nontrivial)
     res.label('width-%d-at-end' % len(grid[0]))
-    res.label('mode-%d-at-end' % mode)
+    res.label('mode-%s-at-end' % mode)
 
 
 def _view_after(outs, err, ref):
@@ -802,7 +827,8 @@ def _view_after(outs, err, ref):
     return ref
 
 
-def _classify(res, kind, idx, desc, op, outs, err, grid, before_grid, R, C, cands, ref):
+def _classify(res, kind, idx, desc, op, outs, err, grid, before_grid, R, C, cands, ref,
+              prev_fs=False):
     """No candidate explains the observation: choose the bucket."""
     exp_errs = sorted({str(e) for e, _ in outs})
     head = 'step %d %s: error=%d CSRLIN=%d POS=%d; ' % (idx, desc, err, R, C)
@@ -837,8 +863,10 @@ def _classify(res, kind, idx, desc, op, outs, err, grid, before_grid, R, C, cand
     grid_ok = [cd for cd in same_err if matches_grid(cd, grid)]
     if grid_ok:
         want = sorted(set().union(*[cd.reported() for cd in grid_ok]))
-        res.fail('%s.cursor' % kind, head + 'screen content as predicted but cursor expected at '
-                 '%r' % (want,))
+        key = '%s.cursor' % kind
+        if kind == 'print' and prev_fs:
+            key = 'print.after-cursor-right'
+        res.fail(key, head + 'screen content as predicted but cursor expected at %r' % (want,))
         return
     if kind == 'print':
         top, bot = ref.top, ref.bot
@@ -848,8 +876,12 @@ def _classify(res, kind, idx, desc, op, outs, err, grid, before_grid, R, C, cand
                          '%r -> %r' % (i, top, bot, before_grid[i - 1].rstrip(),
                                        grid[i - 1].rstrip()))
                 return
-    res.fail('%s.screen' % kind, head + (first_diff(same_err[0], grid) or '') + ' (%d model '
-             'alternatives tried)' % len(same_err))
+    key = '%s.screen' % kind
+    if kind == 'print' and prev_fs:
+        # own bucket: plain output right after a PRINT that contained CHR$(28) (cursor right)
+        key = 'print.after-cursor-right'
+    res.fail(key, head + (first_diff(same_err[0], grid) or '') + ' (%d model alternatives tried)'
+             % len(same_err))
 
 
 def matches_grid(cd, grid):
@@ -873,6 +905,8 @@ def strat_item():
         st.builds(lambda v, s: {'lk': 'left', 'lv': v, 'seed': s}, st.integers(-3, 3), sd),
         st.builds(lambda v, s: {'lk': 'left', 'lv': v, 'seed': s}, st.integers(0, 1), sd),
         st.builds(lambda v, s: {'lk': 'line', 'lv': v, 'seed': s}, st.integers(-2, 2), sd),
+        # exact fit: width - column + 1 characters, plus 0-2 whole lines
+        st.builds(lambda v, s: {'lk': 'fit', 'lv': v, 'seed': s}, st.integers(0, 2), sd),
         st.builds(lambda v, s: {'lk': 'long', 'lv': v, 'seed': s}, st.integers(0, 120), sd),
         st.builds(lambda v, s: {'lk': 'abs', 'lv': v, 'seed': s},
                   st.one_of(st.integers(0, 12), st.integers(0, 200)), sd),
@@ -993,11 +1027,28 @@ REGRESSIONS = [
     # item that does not fit starts on the next line and scrolls
     {'video': 'cga', 'ops': [{'op': 'locate', 'rk': 'abs', 'rv': 25, 'ck': 'abs', 'cv': 81},
                              _p('ab')]},
+    # exact fit + statement newline: empty row, next output two rows down (80 and 40 columns, split
+    # over two statements, 160 characters, bare PRINT afterwards, bottom of a VIEW PRINT window)
+    {'video': 'cga', 'ops': [_p('x' * 80, True), _p('y', True), _p('p' * 50), _p('q' * 30, True),
+                             _p('r', True), _p('w' * 160, True), _p('z', True), _p('v' * 80),
+                             {'op': 'print', 'items': [], 'nl': True}, _p('u', True)]},
+    {'video': 'cga', 'ops': [_p('top'), {'op': 'locate', 'rk': 'abs', 'rv': 13, 'ck': 'abs', 'cv': 2},
+                             _p('below'), {'op': 'view', 'a': 5, 'b': 10},
+                             {'op': 'locate', 'rk': 'abs', 'rv': 9, 'ck': 'abs', 'cv': 2},
+                             _p('k', True),
+                             {'op': 'locate', 'rk': 'abs', 'rv': 11, 'ck': 'abs', 'cv': 2},
+                             _p('v' * 80, True), _p('after', True)]},
+    {'video': 'ega', 'ops': [{'op': 'screen', 'm': 1}, _p('m' * 40, True), _p('n', True),
+                             {'op': 'locate', 'rk': 'abs', 'rv': 5, 'ck': 'abs', 'cv': 31},
+                             _p('0123456789A', True), _p('o', True)]},
     # exact fill followed by newline
     {'video': 'cga', 'ops': [_p('y' * 80, True), _p('z', True)]},
     # scrolling inside a two-row window leaves the other rows alone
     {'video': 'cga', 'ops': [_p('top', True), {'op': 'view', 'a': 5, 'b': 6},
                              _p('a', True), _p('b', True), _p('c', True), _p('d' * 90, True)]},
+    # OPEN: cursor right (CHR$(28)) from the overflow position leaves the overflow flag set: the
+    # cursor is reported at (2,1) but the next character lands in column 2
+    {'video': 'cga', 'ops': [{'op': 'width', 'w': 40}, _p('x' * 40 + '\x1c'), _p('abc')]},
     # cursor-down on the bottom row of the window / cursor-right in its last column must not scroll
     {'video': 'cga', 'ops': [_p('top line', True), {'op': 'locate', 'rk': 'abs', 'rv': 25, 'ck': 'abs',
                                                     'cv': 6}, _p('\x1f'),
@@ -1032,6 +1083,8 @@ KILLS = [
     "textscreen.screen_fn_: reads column+1 -> screenfn.value",
     "ScrollArea.init_mode: window kept over WIDTH/SCREEN -> print.screen / screenfn.legal-rejected",
     "buffers.scroll_up: deletes the wrong text row / inserts the blank row one too high -> print.screen",
+    "formatter.format: end-of-statement newline issued before the overflow check (second line feed "
+    "lost after a line that ends in the last column) -> print.screen / print.cursor",
     "console.write: CHR$(11)/CHR$(28)-CHR$(31) handlers call set_pos without scroll_ok=False (cursor "
     "down on the bottom row of the window scrolls it) -> cursor-move.changed-screen",
     "devicebase.SCRNFile.write: fit rule '>' -> '>=' -> print.screen; fit rule removed -> print.screen",
